@@ -98,8 +98,29 @@ def run_select(conn, sql):
         return ('err', '%s: %s' % (type(e).__name__, str(e)[:120]), None)
 
 
-def dump(conn):
-    """contents of every user table (schema + rows as a multiset)"""
+def affinity(decl):
+    """sqlite's column affinity of a declared type (https://sqlite.org/datatype3.html 3.1)"""
+    d = (decl or '').upper()
+    if 'INT' in d:
+        return 'INTEGER'
+    if any(x in d for x in ('CHAR', 'CLOB', 'TEXT')):
+        return 'TEXT'
+    if 'BLOB' in d or not d:
+        return 'BLOB'
+    if any(x in d for x in ('REAL', 'FLOA', 'DOUB')):
+        return 'REAL'
+    return 'NUMERIC'
+
+
+def table_info(conn, name):
+    """per column: (name, affinity, NOT NULL in effect, member of the primary key (a set: the order of a composite key
+    is not an effect on contents), default).
+    A primary-key column counts as NOT NULL (SQL; sqlite itself lets NULLs into non-INTEGER keys)."""
+    return [(r[1], affinity(r[2]), bool(r[3]) or r[5] > 0, int(r[5] > 0), r[4]) for r in conn.execute('PRAGMA table_info("%s")' % name)]
+
+
+def dump(conn, schema=False):
+    """contents of every user table (columns + rows as a multiset), with the declared constraints when asked"""
     out = {}
     try:
         names = [r[0] for r in conn.execute("SELECT name FROM sqlite_master WHERE type='table' ORDER BY name")]
@@ -107,9 +128,47 @@ def dump(conn):
             cur = conn.execute('SELECT * FROM "%s"' % n)
             cols = [d[0] for d in cur.description]
             out[n] = (cols, sorted((tuple(r) for r in cur.fetchall()), key=skey))
+            if schema:
+                out[n] += (table_info(conn, n),)
     except sqlite3.Error as e:
         out['!'] = str(e)
     return out
+
+
+def constraint_workload(conn):
+    """make the constraints of every table observable in its contents: rows carrying a NULL in each non-key column,
+    a repeated row, and updates to NULL -- all OR IGNORE, so a constraint shows as a row that is (not) there"""
+    try:
+        names = [r[0] for r in conn.execute("SELECT name FROM sqlite_master WHERE type='table' ORDER BY name")]
+        for n in names:
+            info = table_info(conn, n)
+            cols = [c[0] for c in info]
+            if not cols:
+                continue
+            full = [70 + i for i in range(len(cols))]
+            stmts = []
+            for rep_ in range(2):
+                stmts.append(('INSERT OR IGNORE INTO "%s" (%s) VALUES (%s)' % (n, ', '.join(cols), ', '.join('?' * len(cols))), full))
+            for i, c in enumerate(info):
+                if c[3] > 0:
+                    continue            # no NULL into a key column (sqlite's own leniency there is not the renderer's matter)
+                vals = [80 + 10 * i + j for j in range(len(cols))]
+                vals[i] = None
+                stmts.append(('INSERT OR IGNORE INTO "%s" (%s) VALUES (%s)' % (n, ', '.join(cols), ', '.join('?' * len(cols))), vals))
+                rest = [x for j, x in enumerate(cols) if j != i]
+                if rest:            # the column left out: its default applies
+                    stmts.append(('INSERT OR IGNORE INTO "%s" (%s) VALUES (%s)' % (n, ', '.join(rest), ', '.join('?' * len(rest))),
+                                  [60 + 10 * i + j for j in range(len(rest))]))
+            for i, c in enumerate(info):
+                if c[3] == 0:
+                    stmts.append(('UPDATE OR IGNORE "%s" SET %s = NULL WHERE %s = ?' % (n, c[0], c[0]), [70 + i]))
+            for sql, args in stmts:
+                try:
+                    conn.execute(sql, args)
+                except sqlite3.Error:
+                    pass
+    except sqlite3.Error:
+        pass
 
 
 def run_dml(content, sql, rev=False):
@@ -126,7 +185,9 @@ def run_dml(content, sql, rev=False):
             c.execute(sql)
         except sqlite3.Error as e:
             return ('err', '%s: %s' % (type(e).__name__, str(e)[:120]))
-        return ('ok', dump(c))
+        before = dump(c, schema=True)
+        constraint_workload(c)
+        return ('ok', dict(after_statement=before, after_constraint_workload=dump(c)))
     finally:
         c.close()
 
@@ -499,7 +560,10 @@ class Gen:
                 s += ' ORDER BY ' + ', '.join(keys)
                 if not distinct:
                     self.order_keys = bare
-            if rng.random() < 0.25:
+            if rng.random() < 0.04:
+                self.f('offset-without-limit')
+                s += ' OFFSET %d' % rng.randint(0, 2)
+            elif rng.random() < 0.25:
                 self.f('limit')
                 s += ' LIMIT %d' % rng.randint(0, 3)
                 if rng.random() < 0.5:
@@ -569,6 +633,38 @@ class Gen:
             s += ' WHERE ' + pred
         return s, False, []
 
+    def having_no_group(self):
+        """aggregates over the single implicit group with HAVING and no GROUP BY: top level, IN / scalar sub-query,
+        CTE body, INSERT … SELECT source"""
+        rng = self.rng
+        frm, cols = self.from_clause(0)
+        self.f('having-without-group-by')
+
+        def agg():
+            fn = rng.choice(('count(*)', 'count', 'sum', 'min', 'max'))
+            return fn if fn == 'count(*)' else '%s(%s)' % (fn, rng.choice(cols))
+        hv = rng.choice(('%s %s %d' % (agg(), rng.choice(self.CMP), rng.randint(0, 3)), '%s IS NULL' % agg(),
+                         '%s IS NOT NULL' % agg(), '%s %s %s' % (agg(), rng.choice(self.CMP), agg()),
+                         '%s > 100' % agg(), 'NOT (%s = %d)' % (agg(), rng.randint(0, 2))))
+        where = ' WHERE ' + self.expr(cols, 1, True, sub=False) if rng.random() < 0.4 else ''
+        n = rng.randint(1, 2)
+        inner = 'SELECT %s FROM %s%s HAVING %s' % (', '.join(agg() for _ in range(n)), frm, where, hv)
+        shape = rng.choice(('top', 'top', 'in', 'scalar', 'cte', 'insert-select', 'from'))
+        self.f('having-no-group:' + shape)
+        one = 'SELECT %s FROM %s%s HAVING %s' % (agg(), frm, where, hv)
+        if shape == 'top':
+            return inner, 'select'
+        if shape == 'in':
+            return 'SELECT a FROM t WHERE a %s (%s)' % (rng.choice(('IN', 'NOT IN')), one), 'select'
+        if shape == 'scalar':
+            return 'SELECT a, (%s) FROM u' % one, 'select'
+        if shape == 'cte':
+            return 'WITH w AS (SELECT %s AS p FROM %s%s HAVING %s) SELECT p FROM w' % (agg(), frm, where, hv), 'select'
+        if shape == 'from':
+            return 'SELECT s.p FROM (SELECT %s AS p FROM %s%s HAVING %s) AS s' % (agg(), frm, where, hv), 'select'
+        two = 'SELECT %s, %s FROM %s%s HAVING %s' % (agg(), agg(), frm, where, hv)
+        return 'INSERT INTO t (a, b) %s' % two, 'dml'
+
     def setop(self):
         rng = self.rng
         op = rng.choice(('UNION', 'UNION ALL', 'INTERSECT', 'EXCEPT'))
@@ -596,7 +692,7 @@ class Gen:
 
     def dml(self):
         rng = self.rng
-        k = rng.choice(('insert', 'insert', 'insert-select', 'update', 'update', 'delete', 'delete', 'create', 'drop'))
+        k = rng.choice(('insert', 'insert', 'insert-select', 'update', 'update', 'delete', 'delete', 'create', 'create', 'drop'))
         self.f('dml:' + k)
         tb = rng.choice(('t', 'u'))
         cols = list(SCHEMA[tb])
@@ -624,9 +720,33 @@ class Gen:
                 s += ' WHERE ' + (self.str_pred(cols) if rng.random() < 0.3 else self.expr(cols, rng.randint(1, 2), True))
             return s
         if k == 'create':
-            tys = ('INT', 'INTEGER', 'TEXT', 'VARCHAR', 'FLOAT', 'BOOLEAN', 'DATE')
-            cs = ', '.join('%s %s' % (n, rng.choice(tys)) for n in ('p', 'q', 'r')[:rng.randint(1, 3)])
-            return 'CREATE TABLE %s (%s)' % (rng.choice(('w', 'v')), cs)
+            tys = ('INT', 'INTEGER', 'TEXT', 'VARCHAR', 'FLOAT', 'BOOLEAN', 'DATE', 'VARCHAR(10)', 'int', 'BIGINT')
+            names = ('p', 'q', 'r')[:rng.randint(1, 3)]
+            defs, keyed = [], False
+            for n in names:
+                d = '%s %s' % (n, rng.choice(tys))
+                c = rng.random()
+                if c < 0.3:
+                    self.f('ddl:not-null')
+                    d += ' NOT NULL'
+                elif c < 0.45:
+                    self.f('ddl:null')
+                    d += ' NULL'
+                elif c < 0.55 and not keyed:
+                    self.f('ddl:column-pk')
+                    keyed = True
+                    d += ' PRIMARY KEY'
+                    if rng.random() < 0.3:
+                        d += ' NOT NULL'
+                defs.append(d)
+            if not keyed and rng.random() < 0.25:
+                self.f('ddl:table-pk')
+                defs.append('PRIMARY KEY (%s)' % ', '.join(rng.sample(names, rng.randint(1, min(2, len(names))))))
+            ine = ''
+            if rng.random() < 0.15:
+                self.f('ddl:if-not-exists')
+                ine = 'IF NOT EXISTS '
+            return 'CREATE TABLE %s%s (%s)' % (ine, rng.choice(('w', 'v', 'w', 'v', 't')), ', '.join(defs))
         return 'DROP TABLE %s%s' % ('IF EXISTS ' if rng.random() < 0.4 else '', rng.choice(('t', 'u', 'zz')))
 
     def statement(self):
@@ -644,9 +764,11 @@ class Gen:
         elif r < 0.76:
             text, ordered, alias = self.setop()
             kind = 'select'
-        elif r < 0.82:
+        elif r < 0.80:
             text, ordered, alias = self.cte()
             kind = 'select'
+        elif r < 0.85:
+            (text, kind), ordered, alias = self.having_no_group(), False, []
         else:
             text, ordered, alias, kind = self.dml(), False, [], 'dml'
         return dict(kind=kind, text=text, ordered=ordered, alias=alias, feats=sorted(self.feats),
